@@ -163,6 +163,8 @@ type bundle struct {
 	fregs      [][2]int          // per float backing: offset and length of the data inside it
 	carvedHash map[string]uint64 // hash of each float backing at the moment it was carved
 	damage     []string          // inputs found modified by the library calls made while the bundle was built
+	carvedI    []uint64 // hash of each int backing when carved
+	carvedE    []uint64 // hash of each edge backing when carved
 	swz                                    stats.Sample // weighted with zero weights inside and at the end
 	// results returned by the library when the bundle was built and only
 	// queried afterwards (by many callers at once in the concurrent stages)
@@ -235,6 +237,7 @@ func (b *bundle) carveI(name string, rng *mon.Rand, xs []int) []int {
 	}
 	copy(back[pre:], xs)
 	b.ibacks = append(b.ibacks, back)
+	b.carvedI = append(b.carvedI, mon.NewHasher().Is(back).Sum())
 	return back[pre : pre+len(xs) : pre+len(xs)+spare]
 }
 
@@ -246,7 +249,16 @@ func (b *bundle) carveE(rng *mon.Rand, xs []graph.Edge) []graph.Edge {
 	}
 	copy(back[pre:], xs)
 	b.ebacks = append(b.ebacks, back)
+	b.carvedE = append(b.carvedE, hashEdges(back))
 	return back[pre : pre+len(xs) : pre+len(xs)+spare]
+}
+
+func hashEdges(es []graph.Edge) uint64 {
+	h := mon.NewHasher()
+	for _, ed := range es {
+		h = h.I(ed.Node).I(ed.Edge)
+	}
+	return h.Sum()
 }
 
 // snapshot hashes every piece of input memory, one hash per named region.
@@ -519,6 +531,18 @@ func newBundle(seed uint64) *bundle {
 	for i, back := range b.fbacks {
 		if mon.NewHasher().Fs(back).Sum() != b.carvedHash[b.names[i]] {
 			b.damage = append(b.damage, b.names[i])
+		}
+	}
+	for i, back := range b.ibacks {
+		if mon.NewHasher().Is(back).Sum() != b.carvedI[i] {
+			b.damage = append(b.damage, "an int slice (graph adjacency list, idom, node list or UDist.T)")
+			break
+		}
+	}
+	for i, back := range b.ebacks {
+		if hashEdges(back) != b.carvedE[i] {
+			b.damage = append(b.damage, "an edge list (SubgraphKeep/Remove argument)")
+			break
 		}
 	}
 	b.levels = b.carveF("levels", rng, []float64{0.03, 0.2, 0.41, 0.5, 0.77, 0.9, 0.99, b.y})
